@@ -6,7 +6,7 @@ declarative tables into sharded .cpp files. It is deterministic: same inputs, sa
 """
 import os
 
-NSHARDS = 32
+NSHARDS = 48
 
 
 # =============================================================================== tiers
@@ -99,9 +99,144 @@ INTS = ['int', 'Int64']
 ALLT = FLOATS + INTS
 
 
+def _lcg(seed):
+    x = seed & 0xFFFFFFFF
+    while True:
+        x = (x * 1664525 + 1013904223) & 0xFFFFFFFF
+        yield x >> 8
+
+
+SHAPES2 = [(1, 1), (2, 2), (3, 3), (4, 4), (2, 3), (3, 2), (3, 4), (4, 5), (5, 7), (7, 5), (3, 8), (2, 9), (8, 3), (3, 15), (2, 16), (3, 17), (9, 9), (1, 7), (5, 1), (8, 8)]
+SHAPES3 = [(2, 2, 2), (2, 3, 4), (3, 2, 5), (2, 2, 7), (3, 3, 8), (2, 3, 9), (1, 2, 16), (2, 2, 17), (4, 4, 4), (2, 5, 3)]
+SQUARES = [1, 2, 3, 4, 5, 6, 7, 8, 9, 12, 16, 17]
+
+
+def sizes1(t):
+    return list(range(1, 36)) if t in ('float', 'int') else list(range(1, 20))
+
+
+def matmul_triples(t):
+    base = [(2, 2, 2), (3, 3, 3), (4, 4, 4), (8, 8, 8), (3, 3, 1), (1, 3, 3), (3, 1, 3), (1, 1, 1), (2, 3, 4), (5, 5, 5), (3, 9, 1), (9, 3, 3)]
+    Ms = [1, 2, 3, 4, 5, 8]; Ks = [1, 2, 3, 4, 7]; Ns = [1, 2, 3, 4, 5, 6, 7, 8, 9, 10, 12, 15, 16, 17]
+    g = _lcg({'float': 11, 'double': 22, 'int': 33}[t])
+    out = list(base)
+    while len(out) < 84:
+        m, k, n = Ms[next(g) % len(Ms)], Ks[next(g) % len(Ks)], Ns[next(g) % len(Ns)]
+        if (m, k, n) not in out:
+            out.append((m, k, n))
+    return out
+
+
 def memsim_ops(config, flags):
-    """list of (function expr, name, family, flags expr, header)"""
+    """list of C++ registration statements"""
+    checks = 'FASTOR_ENABLE_RUNTIME_CHECKS=1' in flags or 'NDEBUG' not in flags
+    avx2_plus = any(f in flags for f in ('-mavx2', 'avx512', '-mavx ', '-mavx'))
     ops = []
+
+    def reg(fn, fam, fl='0'):
+        ops.append(f'MEMSIM_REG(v, ({fn}), "{fn}", "{fam}", {fl});')
+    for t in ALLT:
+        fp = t in FLOATS
+        for n in sizes1(t):
+            reg(f'op_map_expr<{t},{n}>', 'map_ew', 'F_ANYALIGN')
+            reg(f'op_map_compound<{t},{n}>', 'map_ew', 'F_ANYALIGN')
+            reg(f'op_map_scalar<{t},{n}>', 'map_ew', 'F_ANYALIGN')
+            reg(f'op_map_methods<{t},{n}>', 'map_methods', 'F_ANYALIGN')
+            reg(f'op_map_reduce<{t},{n}>' if fp else f'op_map_reduce_np<{t},{n}>', 'map_reduce', 'F_ANYALIGN')
+            reg(f'op_own_methods<{t},{n}>', 'own_methods')
+            reg(f'op_view1_dyn<{t},{n}>', 'view_dyn')
+            if n % 2 == 1 or n in (2, 4, 8, 16, 32):
+                reg(f'op_map_compound_expr<{t},{n}>', 'map_ew', 'F_ANYALIGN')
+                reg(f'op_map_to_tensor<{t},{n}>', 'map_ew', 'F_ANYALIGN')
+                reg(f'op_map_cmp<{t},{n}>', 'map_reduce', 'F_ANYALIGN')
+                reg(f'op_own_expr<{t},{n}>', 'own_ew')
+                reg(f'op_own_reduce<{t},{n}>', 'own_reduce')
+                if n >= 2:
+                    reg(f'op_view1_fixed<{t},{n}>', 'view_fixed')
+                reg(f'op_view_mask<{t},{n}>', 'view_mask')
+                if n >= 3:
+                    reg(f'op_view_index<{t},{n},{max(1, n // 2)}>', 'view_index')
+                if fp:
+                    reg(f'op_map_math<{t},{n}>', 'map_ew', 'F_ANYALIGN')
+                    reg(f'op_own_math<{t},{n}>', 'own_ew')
+                    reg(f'op_map_inner_norm<{t},{n}>', 'map_reduce', 'F_ANYALIGN')
+        for (m, n) in SHAPES2:
+            reg(f'op_map_expr<{t},{m},{n}>', 'map_ew', 'F_ANYALIGN')
+            reg(f'op_map_transpose<{t},{m},{n}>', 'map_transpose', 'F_ANYALIGN')
+            reg(f'op_map2_fixed_views<{t},{m},{n}>', 'map_view_fixed', 'F_ANYALIGN')
+            reg(f'op_map2_dyn_views<{t},{m},{n}>', 'map_view_dyn', 'F_ANYALIGN')
+            reg(f'op_map_colmajor<{t},{m},{n}>', 'map_layout', 'F_ANYALIGN')
+            reg(f'op_map_ctor_ptr<{t},{m},{n}>', 'ctor', 'F_ANYALIGN')
+            reg(f'op_transpose<{t},{m},{n}>', 'transpose')
+            reg(f'op_view2_dyn<{t},{m},{n}>', 'view_dyn')
+            reg(f'op_view2_fixed<{t},{m},{n}>', 'view_fixed')
+            reg(f'op_scalar_index<{t},{m},{n}>', 'scalar_index')
+            reg(f'op_ctor_ptr<{t},{m},{n}>', 'ctor', 'F_ANYALIGN')
+            reg(f'op_ctor_array<{t},{m},{n}>', 'ctor', 'F_ANYALIGN')
+            reg(f'op_colmajor<{t},{m},{n}>', 'layout')
+            reg(f'op_reshape<{t},{m},{n}>', 'reshape')
+            reg(f'op_own_expr<{t},{m},{n}>', 'own_ew')
+            reg(f'op_view_mask<{t},{m},{n}>', 'view_mask')
+            reg(f'op_raw_transpose<{t},{m},{n}>', 'raw_transpose')
+            if checks:
+                reg(f'op_badindex2<{t},{m},{n}>', 'badindex', 'F_BADINDEX')
+                reg(f'op_badindex_map<{t},{m},{n}>', 'badindex', 'F_BADINDEX | F_ANYALIGN')
+        for (m, n, p) in SHAPES3:
+            reg(f'op_map3_views<{t},{m},{n},{p}>', 'map_view_nd', 'F_ANYALIGN')
+            reg(f'op_map_expr<{t},{m},{n},{p}>', 'map_ew', 'F_ANYALIGN')
+            reg(f'op_view3_dyn<{t},{m},{n},{p}>', 'view_dyn')
+            reg(f'op_view3_fixed<{t},{m},{n},{p}>', 'view_fixed')
+            reg(f'op_colmajor<{t},{m},{n},{p}>', 'layout')
+            reg(f'op_permute3<{t},{m},{n},{p}>', 'permute')
+            reg(f'op_own_reduce<{t},{m},{n},{p}>', 'own_reduce')
+            if t != 'Int64':
+                reg(f'op_einsum_3<{t},{m},{n},{p}>', 'einsum')
+            if checks:
+                reg(f'op_badindex3<{t},{m},{n},{p}>', 'badindex', 'F_BADINDEX')
+        for n in SQUARES:
+            reg(f'op_view_diag<{t},{n}>', 'view_diag')
+            if checks:
+                reg(f'op_badindex1<{t},{n}>', 'badindex', 'F_BADINDEX')
+        reg(f'op_cast<{t},{"double" if t != "double" else "float"},3,5>', 'cast')
+        reg(f'op_cast<{t},{"int" if t != "int" else "float"},2,9>', 'cast')
+        for sh in ('7', '3,3', '2,3,5', '17'):
+            reg(f'op_tovector<{t},{sh}>', 'exempt', 'F_EXEMPT')
+            reg(f'op_print<{t},{sh}>', 'exempt', 'F_EXEMPT')
+    for t in ('float', 'double', 'int'):
+        for i, (m, k, n) in enumerate(matmul_triples(t)):
+            reg(f'op_matmul<{t},{m},{k},{n}>', 'matmul')
+            reg(f'op_raw_matmul<{t},{m},{k},{n}>', 'raw_matmul')
+            reg(f'op_raw_matmul_probe<{t},{m},{k},{n}>', 'raw_matmul_probe', 'F_UNJUDGED | F_ANYALIGN')
+            if i % 2 == 0:
+                reg(f'op_map_matmul<{t},{m},{k},{n}>', 'map_matmul', 'F_ANYALIGN')
+            if i % 3 == 0:
+                reg(f'op_lazy_matmul<{t},{m},{k},{n}>', 'lazy_matmul')
+                reg(f'op_map_lazy_matmul<{t},{m},{k},{n}>', 'map_matmul', 'F_ANYALIGN')
+            if i % 3 == 1 and t != 'int':
+                reg(f'op_tmatmul<{t},{m},{k},{n}>', 'tmatmul')
+            if i % 4 == 2:
+                reg(f'op_einsum_mm<{t},{m},{k},{n}>', 'einsum')
+            if n == 1 or i % 5 == 0:
+                reg(f'op_matvec<{t},{m},{k}>', 'matvec')
+        for (m, n) in SHAPES2[1:13]:   # outer of two 1-vectors is ambiguous
+            reg(f'op_outer_inner<{t},{m},{n}>', 'outer_inner')
+            reg(f'op_einsum_outer<{t},{m},{n}>', 'einsum')
+    for t in FLOATS:
+        for n in range(1, 10):
+            if n >= 2:      # determinant of a 1x1 does not compile (_det<T,1,1> missing)
+                reg(f'op_inverse<{t},{n}>', 'inverse')
+            reg(f'op_trace_norm<{t},{n}>', 'trace_norm')
+            if 2 <= n <= 4:   # the raw kernels exist for N = 2..4 only
+                reg(f'op_raw_inverse_det<{t},{n}>', 'raw_inverse')
+            if n >= 2:
+                reg(f'op_inverse_strategies<{t},{n}>', 'inverse')
+                reg(f'op_lu<{t},{n}>', 'lu')
+                reg(f'op_qr<{t},{n}>', 'qr')
+                reg(f'op_solve<{t},{n},{1 + n % 3}>', 'solve')
+        for n in (12, 16, 17, 20):
+            reg(f'op_inverse_strategies<{t},{n}>', 'inverse')
+            reg(f'op_lu<{t},{n}>', 'lu')
+            reg(f'op_solve<{t},{n},2>', 'solve')
     return ops
 
 
@@ -130,7 +265,7 @@ def write_shards(bdir, ns, headers, prelude, ops, regmacro, simd_all=None):
 def gen_memsim(bdir, config, flags):
     stmts = ['reg_simd_all(v);']
     stmts += memsim_ops(config, flags)
-    files, decl = write_shards(bdir, 'memsim', ['memsim.h', 'ops_simd.h'], 'using namespace Fastor;\n', stmts, None)
+    files, decl = write_shards(bdir, 'memsim', ['memsim.h', 'ops_simd.h', 'ops_map.h', 'ops_own.h', 'ops_misc.h'], 'using namespace Fastor;\n', stmts, None)
     with open(os.path.join(bdir, 'shards.inc'), 'w') as f:
         f.write('namespace memsim {\n')
         for d in decl:
